@@ -10,6 +10,7 @@ import (
 	"image/color"
 	"os"
 	"regexp"
+	"runtime/debug"
 	"strconv"
 	"strings"
 	"time"
@@ -76,6 +77,7 @@ type endEv struct {
 	NilDst    *int   `json:"nildst,omitempty"`
 	LogDst    *int   `json:"logdst,omitempty"`
 	VecDst    *int   `json:"vecdst,omitempty"` // Decode into a Renderer that draws through a real raster/vec.Rasterizer
+	VecPanic  string `json:"vecpanic"`         // "" or "<package of the innermost non-runtime frame>:<panic message>" of a panic on that route
 }
 
 func intp(i int) *int { return &i }
@@ -164,6 +166,32 @@ func runRecorder(src []byte, opts []decode.DecodeOption) (rec *Recorder, hs []in
 	return
 }
 
+// panicPackage returns the import path of the innermost frame of a panic's stack that is neither the runtime nor this
+// harness (e.g. "golang.org/x/image/vector", "github.com/reactivego/ivg/render").
+var vecPanicSite string
+
+func panicPackage(stack []byte) string {
+	for _, line := range strings.Split(string(stack), "\n") {
+		if strings.HasPrefix(line, "\t") || strings.HasPrefix(line, "goroutine ") || line == "" {
+			continue
+		}
+		fn := line
+		if i := strings.LastIndex(fn, "("); i > 0 {
+			fn = fn[:i]
+		}
+		if strings.HasPrefix(fn, "runtime") || strings.HasPrefix(fn, "panic") || strings.HasPrefix(fn, "main.") || strings.HasPrefix(fn, "verifharness") {
+			continue
+		}
+		// package path = everything before the first dot after the last slash
+		j := strings.LastIndex(fn, "/")
+		if k := strings.Index(fn[j+1:], "."); k >= 0 {
+			return fn[:j+1+k]
+		}
+		return fn
+	}
+	return "unknown"
+}
+
 // traceDecode records one trace for the input src.
 var devNull, _ = os.OpenFile(os.DevNull, os.O_WRONLY, 0)
 
@@ -237,16 +265,26 @@ func traceDecode(w *Writer, id string, src0 []byte, fl decFlags) (ncalls int, ac
 		// rendering for real: a Renderer whose rasteriser samples the paints (raster/vec over an RGBA image) - same
 		// outcome, no panic, whatever the paints are
 		if len(src) <= 1<<14 {
+			vecPanicSite = ""
 			oz := guarded(func() error {
+				defer func() {
+					if r := recover(); r != nil {
+						vecPanicSite = panicPackage(debug.Stack())
+						panic(r)
+					}
+				}()
 				img := image.NewRGBA(image.Rect(0, 0, 24, 20))
 				var rd render.Renderer
 				rd.SetRasterizer(vec.NewRasterizer(img), image.Rect(2, 1, 22, 19))
 				return decode.Decode(&rd, src, fl.opts...)
 			})
 			ee.VecDst = intp(oz.ok())
-			if oz.panicv != nil || oz.hang {
+			if oz.hang {
 				ee.Panic = 1
-				ee.Err = fmt.Sprint("panic while rendering through raster/vec: ", oz.panicv)
+			}
+			if oz.panicv != nil {
+				// reported on its own (not through the general panic flag), with the place it came from
+				ee.VecPanic = fmt.Sprint(vecPanicSite, ":", oz.panicv)
 			}
 		}
 	}
